@@ -214,3 +214,71 @@ func onEdge(d *ssa.BasicBlock, idx int, cur *ssa.BasicBlock) bool {
 	s := d.Succs[idx]
 	return (s == cur || s.Dominates(cur)) && len(s.Preds) == 1
 }
+
+// edgeGuards lists the conditions known to hold (with their truth value) whenever block b is
+// reached: the branch edges every path to b must take (edge dominance, nearest first), each
+// expanded through negation and through the phis go/ssa builds for short-circuit && / ||
+// (`a && b` true => b true and everything needed to evaluate b, i.e. a true).
+func edgeGuards(b *ssa.BasicBlock) []guardEdge {
+	var res []guardEdge
+	seen := map[*ssa.BasicBlock]bool{}
+	collectGuards(b, &res, seen, 0)
+	return res
+}
+
+func collectGuards(b *ssa.BasicBlock, res *[]guardEdge, seen map[*ssa.BasicBlock]bool, depth int) {
+	if b == nil || seen[b] || depth > 4 {
+		return
+	}
+	seen[b] = true
+	cur := b
+	for d := cur.Idom(); d != nil; d = d.Idom() {
+		if ifi, ok := d.Instrs[len(d.Instrs)-1].(*ssa.If); ok && len(d.Succs) == 2 && d.Succs[0] != d.Succs[1] {
+			switch {
+			case onEdge(d, 0, cur):
+				expandGuard(guardEdge{ifi.Cond, true}, res, seen, depth)
+			case onEdge(d, 1, cur):
+				expandGuard(guardEdge{ifi.Cond, false}, res, seen, depth)
+			}
+		}
+	}
+}
+
+func expandGuard(ge guardEdge, res *[]guardEdge, seen map[*ssa.BasicBlock]bool, depth int) {
+	*res = append(*res, ge)
+	switch x := ge.cond.(type) {
+	case *ssa.UnOp:
+		if x.Op == token.NOT {
+			expandGuard(guardEdge{x.X, !ge.pol}, res, seen, depth)
+		}
+	case *ssa.Phi:
+		// short-circuit value: constant on the edges where the outcome was already decided
+		live := -1
+		for i, e := range x.Edges {
+			if cst, ok := e.(*ssa.Const); ok && cst.Value != nil && cst.Value.Kind() == constant.Bool && constant.BoolVal(cst.Value) != ge.pol {
+				continue // this edge would have produced the other truth value
+			}
+			if live >= 0 {
+				return // more than one way to get this truth value: nothing certain
+			}
+			live = i
+		}
+		if live < 0 {
+			return
+		}
+		if _, isConst := x.Edges[live].(*ssa.Const); !isConst {
+			expandGuard(guardEdge{x.Edges[live], ge.pol}, res, seen, depth+1)
+		}
+		// ... and the operand was evaluated at all: whatever guards its block
+		pred := x.Block().Preds[live]
+		// the edge pred -> phi block itself may be a branch edge
+		if ifi, ok := pred.Instrs[len(pred.Instrs)-1].(*ssa.If); ok && len(pred.Succs) == 2 && pred.Succs[0] != pred.Succs[1] {
+			if pred.Succs[0] == x.Block() {
+				expandGuard(guardEdge{ifi.Cond, true}, res, seen, depth+1)
+			} else if pred.Succs[1] == x.Block() {
+				expandGuard(guardEdge{ifi.Cond, false}, res, seen, depth+1)
+			}
+		}
+		collectGuards(pred, res, seen, depth+1)
+	}
+}
